@@ -240,6 +240,7 @@ TIE_ADDENDA = {
  "C12": " A third of the trees carry a length on the root itself (it belongs to no branch).",
  "C13": " Matrices with REPEATED labels (through new and set_taxa): to_map agrees with get, identical labels read zero, a label names its first position (to_map_functional: entries under one key agree).",
  "C14": " Square texts that are symmetric except in one mirrored pair, over zero-rich values, must be rejected whichever entry was changed.",
+ "C15": " Global determinism (Props/C15Det.lean): under unambiguous minima the sequence of merges, read as (member set, height), is determined by the matrix — two complete average-linkage runs from equivalent states agree position by position; the executable UPGMA on the same labelled matrix in ANY taxon order returns the same (leaf-name set, height) nodes, and the executable's own tie=false flag certifies the hypothesis; a kernel-checked tie shows the hypothesis is needed.",
  "C16": " Inputs also include repeated tip labels and the `tomb2` arena layout.",
  "C19": " Layout::rescale is exercised with ordinary, negative, zero (either sign), subnormal, huge and infinite factors, each group on a fresh drawing.",
  "C20": " The outcome class (Ok / Err) of every two-tree comparison on every subject x partner pair with exactly one live root each is compared with the split model: an Ok where the model refuses the pair (or the reverse) is reported.",
